@@ -242,6 +242,39 @@ def h_seq(ctx, types, twin=None):
     ctx.require(s.remaining_refs == 0, 'nothing left unread (refs)')
 
 
+def h_addr_same_account(ctx, d1, d2, d3):
+    """three internal addresses of the SAME account in one cell, with different anycast parts (depth 0 = none): each is loaded
+    back with its own anycast, a peek agrees with the read, and what was returned earlier does not change when the later ones
+    are loaded (address objects shared between loads would show here)"""
+    wc, acc = ctx.sint('wc', 8), ctx.bytes_('acc', 32)
+    T_ = TAddrStd()
+    vals = []
+    for i, d in enumerate((d1, d2, d3)):
+        a = Address((wc, acc))
+        if d:
+            a.set_anycast(d, ctx.uint(f'pfx{i}', d))
+        vals.append(a)
+    b = Builder()
+    for v in vals:
+        b.store_address(v)
+    c = b.end_cell()
+    ctx.require(c.bits.to01() == cat_bits(*[T_.enc(v) for v in vals]), 'same account, different anycast: cell bits are the TL-B encodings')
+    s = c.begin_parse()
+    got = []
+    for v in vals:
+        p = s.preload_address()
+        g = s.load_address()
+        ctx.require(T_.eq(p, v), 'same account, different anycast: peek returns the stored address')
+        ctx.require(T_.eq(g, v), 'same account, different anycast: load returns the stored address')
+        got.append(g)
+    for g, v in zip(got, vals):
+        ctx.require(T_.eq(g, v), 'same account, different anycast: earlier results are unchanged by later loads')
+    # and in another cell, read afterwards
+    s2 = Builder().store_address(vals[1]).end_cell().begin_parse()
+    ctx.require(T_.eq(s2.load_address(), vals[1]), 'same account, different anycast: a later cell')
+    ctx.require(T_.eq(got[0], vals[0]), 'same account, different anycast: earlier results are unchanged by later loads')
+
+
 def h_overrange(ctx, kind, width):
     """values over width+2 bits: the store raises exactly when the value does not fit (both directions)"""
     x = ctx.sint('x', width + 2)
@@ -378,6 +411,8 @@ def instances(tier, seed):
         for p in rnd.sample(trip, 900):
             if sum(parse_type(t).refs for t in p) <= 4:
                 yield 'h_seq', dict(types=list(p))
+    for ds in ((5, 0, 3), (0, 7, 0), (0, 0, 30), (1, 1, 0), (30, 0, 30)):
+        yield 'h_addr_same_account', dict(d1=ds[0], d2=ds[1], d3=ds[2])
     # snake strings around the cell-capacity boundaries
     for n in ((0, 1, 126, 127, 128, 254, 255) if tier == 'quick' else (0, 1, 2, 126, 127, 128, 129, 253, 254, 255, 256, 381, 382, 1000)):
         yield 'h_snake', dict(n=n)
